@@ -2,7 +2,7 @@
 Model: spec/Types.tla (vocabulary, relations, reference implementation), spec/MC_Types.tla (bounded client model,
 emits one behaviour per transition); binding: spec/TraceTypes.tla, harness/hwv_types.c.
 Objects with the attribute values chosen by the model are obtained by loading XML rendered here."""
-import os, random, json, glob, binascii, concurrent.futures as cf
+import os, random, json, glob, binascii, hashlib, concurrent.futures as cf
 import vlib
 
 TYPE_NAMES = ["Machine", "Package", "Die", "Core", "PU", "L1Cache", "L2Cache", "L3Cache", "L4Cache", "L5Cache",
@@ -237,7 +237,7 @@ def run(ctx, replay=None):
     exe = ctx.cc("hwv_types.c", "hwv_types")
     xmldir = ctx.path("xml")
     os.makedirs(xmldir, exist_ok=True)
-    REPLAY_XML = os.path.join(vlib.VERIF, "evidence", "replays", "C11-xml")
+    REPLAY_XML = os.path.join(vlib.VERIF, "evidence", "replays", "xml-C11")   # not named C11-*: Ctx() removes those
 
     def replay_fn(text):
         p = ctx.path("replay-%d.beh" % random.randrange(1 << 30))
@@ -297,17 +297,21 @@ def run(ctx, replay=None):
     others = {"v2": render_v2("c11_v2.xml"), "mixed": render_main("c11_mixed.xml", 1, cu, osd[:2], mixed=True)}
     files = {}
     for tag, x in list(xmls.items()) + list(bad.items()) + list(others.items()):
-        files[tag] = os.path.join(xmldir, x.name)
-        open(files[tag], "w").write(x.text("2.0" if tag == "v2" else "3.0"))
+        text = x.text("2.0" if tag == "v2" else "3.0")
+        # content-addressed names: stored replays keep referring to the right input
+        files[tag] = os.path.join(xmldir, "%s_%s.xml" % (x.name[:-4], hashlib.sha1(text.encode()).hexdigest()[:8]))
+        open(files[tag], "w").write(text)
 
     def ref(o):
         tag, gps = where[okey(o)]
         return "reset %s\nsel gp %d\n" % (files[tag], gps[rng.randrange(len(gps))])
 
     # ---- (3) behaviours: one per transition of the model ----
-    behs = []
+    behs, expected = [], {}
     for h in hists:
         a = h[-1]
+        if a["a"] in ("tsn", "asn", "var"):
+            expected[len(behs)] = okey(h[0]["o"])
         if a["a"] == "tsn":
             behs.append(ref(h[0]["o"]) + "tsn %d\n" % a["f"])
         elif a["a"] == "asn":
@@ -343,8 +347,9 @@ def run(ctx, replay=None):
     for i in range(0, len(strs), 25):
         behs.append("reset -\n" + "".join("scan %s\n" % hexs(s) for s in strs[i:i + 25]))
     # a level that mixes unified and data caches of one depth (hwloc.h: "same for all objects of a level")
-    n_before_mixed = len(behs)
-    behs.append("reset %s\n" % files["mixed"] + "".join("levels %d\n" % f for f in (0, 2)) + "sel all\ntsn 0\ntsn 2\n")
+    behs.append("reset %s\nsel all\ntsn 0\ntsn 2\ntsn 4\nasn 9 1\n" % files["mixed"])
+    for f in (0, 2):
+        behs.append("reset %s\nlevels %d\n" % (files["mixed"], f))
 
     ctx.samples = [behs[0], behs[n_model // 2], behs[n_model - 1], behs[-2]]
     ctx.samples = [s.replace(xmldir, "@XML@") for s in ctx.samples]
@@ -364,6 +369,8 @@ def run(ctx, replay=None):
     def replay2(text):
         return replay_fn(text.replace("@XML@", xmldir).replace("@REPO@", vlib.REPO))
     ctx.handle_rejections(rejs, stored, replay2)
+    if not ctx.rejections:
+        check_coverage(ctx, tf, expected)       # with violations at hand they are the verdict, whatever loaded
     return ctx.finish(
         rule="behaviours = one per transition of the bounded client model (every object of the reachable attribute product x flag word for "
              "type_snprintf / attr_snprintf at every buffer size 0..needed+1, text variants, type_string of every type, every ordered pair of "
@@ -377,6 +384,29 @@ def run(ctx, replay=None):
                      "the reference implementation (PrintM/ParseM/CmpM) only generates cases and shows the relations satisfiable; it never judges the real code"],
         exhaustive=False,
         extra={"behaviours": len(behs), "model_behaviours": n_model, "descriptors": len(descs), "bundled_xml": len(bundled)})
+
+
+def check_coverage(ctx, tf, expected):
+    """infrastructure sanity (not an oracle): did the XML load give an object with the attributes the model asked for"""
+    seen, cur = {}, None
+    with open(tf, errors="replace") as f:
+        for line in f:
+            if line.startswith('{"e":"Reset"'):
+                cur = int(line.split('"beh":', 1)[1].split(",", 1)[0])
+                cur = cur if cur in expected and cur not in seen else None
+            elif cur is not None and (line.startswith('{"e":"tsn"') or line.startswith('{"e":"asn"')):
+                o = json.loads(line)["o"]
+                seen[cur] = (o["type"], o.get("cd", -1), o.get("ct", -1), o.get("gd", -1), o.get("up", -1), o.get("down", -1), tuple(o.get("os", [])))
+                cur = None
+    absent = [b for b in expected if b not in seen]
+    differ = [b for b in seen if seen[b] != expected[b]]
+    ctx.extra["objects_as_requested"] = len(seen) - len(differ)
+    ctx.extra["objects_absent_or_different"] = len(absent) + len(differ)
+    if absent or differ:
+        ctx.notes.append("loaded object differs from the requested descriptor in %d behaviours, absent (or crashed before) in %d, e.g. %r" %
+                         (len(differ), len(absent), [(expected[b], seen.get(b)) for b in (differ + absent)[:3]]))
+    if len(absent) + len(differ) > len(expected) // 2:
+        raise vlib.Infra("the generated XML inputs did not load as intended (%d of %d objects absent or different)" % (len(absent) + len(differ), len(expected)))
 
 
 def check_vocabulary(tf):
